@@ -9,10 +9,10 @@ cp $SRC/README.md $OUT/README.agent.md 2>/dev/null
 cd $WT || exit 2
 git checkout -q -- . 
 git apply --check $OUT/patch.diff || { echo "PATCH DOES NOT APPLY"; exit 2; }
-sh $OUT/demo.sh $WT > $OUT/demo_without.log 2>&1; R0=$?
+bash $OUT/demo.sh $WT > $OUT/demo_without.log 2>&1; R0=$?
 git apply $OUT/patch.diff
 python3 /verif/tools/baseline.py $WT --jobs 6 > $OUT/suite_with.log 2>&1; RS=$?
-sh $OUT/demo.sh $WT > $OUT/demo_with.log 2>&1; R1=$?
+bash $OUT/demo.sh $WT > $OUT/demo_with.log 2>&1; R1=$?
 git checkout -q -- .
 echo "seed=$ID demo_without=$R0 suite_with=$RS demo_with=$R1" | tee $OUT/confirm.txt
 tail -2 $OUT/suite_with.log
